@@ -7,12 +7,16 @@
    upgrade / dial outcomes / connection ready / connection closed by the peer / background run / clock
    tick), of any length.  "Never given": the monitor judges every hand-off event (EHand r c) of the
    history: the connection's first close (ConnClose c, or Upgrade by its holder) is not earlier than the
-   later of (Issue r) and (the connection's last hand-back to the pool / its creation), and a connection
-   that r's Issue took out of the idle list had not been idle longer than a non-zero timeout.
+   later of (Issue r) and (the connection's last hand-back to the pool / its creation), and the connection
+   that r's Issue took out of the idle list (ri_popx: read off the snapshots before / after the Issue) had
+   not sat there longer than a non-zero timeout (ci_idle_time: the clock of the op after which the snapshot
+   first showed it in that idle list).  Proof files: pool/CoreC05.v (first clause), pool/LinC05.v
+   (model-only handle accounting: no connection has two pushable handles, a connection without handle is
+   never pushed / offered / handed out again), pool/ProofsC05.v (timeout clause and the theorem).
    The model is the one after the repair of D15 (found by this proof attempt: register_connected pushed a
    handle that had been closed while it sat in the checkout, so a later waiter received a connection
    closed before its own Issue; counterexample in DESIGN.md / the C05 evidence). *)
-From HD Require Import common.Base http.Model pool.Model pool.Spec pool.ProofsC05 pool.SortedC05.
+From HD Require Import common.Base http.Model pool.Model pool.Spec pool.CoreC05 pool.LinC05 pool.ProofsC05 pool.SortedC05.
 From Coq Require Import Sorted.
 Local Open Scope list_scope.
 
@@ -45,18 +49,31 @@ Theorem c05_idle_times_sorted : forall cfg ops,
 Proof. exact IS_run. Qed.
 Print Assumptions c05_idle_times_sorted.
 
-(* the invariant behind the monitor theorem holds between any two operations: [TI] (op indices bounded,
-   the tracker's ri_popc names only a connection that was unexpired at the Issue) and [RM] (open in the
-   model => not closed for the tracker; held for the tracker => held in the model; first close not before
-   the last hand-back; every connection stored in a checkout was not closed before that request's Issue) *)
+(* the invariants behind the monitor theorem hold between any two operations: [Inv] (pool/CoreC05.v: open in
+   the model => not closed for the tracker; held for the tracker => held in the model; first close not
+   before the last hand-back; every connection stored in a checkout was not closed before that request's
+   Issue) and [Inv2] (pool/ProofsC05.v: the tracker's snapshot / key table / clock agree with the model;
+   every idle entry (c, at) has at <= 1000000 + ci_idle_time c; a pair (r, c = ri_popx r) for which the
+   timeout clause would fail is dead: c has no handle left and r does not have it) *)
 Theorem c05_invariant : forall cfg ops,
-  Inv cfg (final_mst cfg m0 ops (trace cfg ops)) (run cfg ops).
+  Inv3 cfg (final_mst cfg m0 ops (trace cfg ops)) (run cfg ops).
 Proof.
-  intros cfg ops. unfold trace, run. generalize (Inv_init cfg). generalize m0, init.
-  induction ops as [|o ops IH]; intros m s H; cbn [trace_from final_mst fold_left]; [exact H|].
-  apply IH. eapply Inv_track; [apply G_step; exact H|reflexivity].
+  intros cfg ops. unfold trace, run. generalize (Inv3_init cfg). generalize m0, init.
+  induction ops as [|o ops IH]; intros m s [HI HI2]; cbn [trace_from final_mst fold_left]; [split; assumption|].
+  apply IH.
+  pose proof (Inv_track cfg m o (observe (step cfg s o)) (step cfg s o) (G_step cfg m s o _ HI) eq_refl) as HI'.
+  split; [exact HI'|].
+  destruct o; try (apply step_plain; [exact I|exact HI2|exact HI']); [apply step_issue|apply step_tick]; assumption.
 Qed.
 Print Assumptions c05_invariant.
+
+(* state-level reading of the handle accounting: in every reachable state every connection has at most one
+   pushable handle (idle entries, connections popped by a checkout, and - with a non-zero pool token -
+   channel slots, held connections, hand-back tasks), and none if it does not exist *)
+Theorem c05_handles_linear : forall cfg ops c,
+  W None (run cfg ops) c <= (if Nat.ltb c (List.length (conns (run cfg ops))) then 1 else 0).
+Proof. intros cfg ops c. destruct (c05_invariant cfg ops) as [_ H]. apply (v_lin _ _ _ H). Qed.
+Print Assumptions c05_handles_linear.
 
 (* non-vacuity 1: the peer closes an idle connection (ConnClose 0 while connection 0 is parked); the next
    request does not get it: its Issue discards it (EDrop 0) and its first poll dials (EDial 1), whereas
@@ -79,6 +96,20 @@ Example c05_example_expired :
     = [[]; [EDrop 0]; [EDial 1 ("http", "a.test")%string; EPend 1]]
   /\ map o_events (skipn 8 (trace cfg (pre ++ [Tick 5; Issue 0 H1; Poll 1])))
     = [[]; []; [EHand 1 0 false true true 0; EPend 1]].
+Proof. vm_compute. auto. Qed.
+
+(* non-vacuity 3: two parked connections, idle since clock 0 (connection 0) and 2 (connection 1), timeout 3;
+   at clock 4 a request gets the younger one (EHand 2 1); the next request finds only connection 0, idle
+   for 4 > 3: it is discarded (EDrop 0) and the request dials (EDial 3).  (A pop that checked the expiry
+   of the youngest entry only - the seeded regression - would hand out connection 0 here.) *)
+Example c05_example_oldest_expired :
+  let cfg := mkCfg true (Some 3%N) 4 false [Some ("http", "a.test")%string] in
+  let pre := [Issue 0 H1; Issue 0 H1; Poll 0; Poll 1; DialDone 0 (DOk false); DialDone 1 (DOk false); Poll 0; Poll 1;
+              Finish 0; Finish 1; Poll 0; Poll 1; ConnReady 0; Bg; Tick 2; ConnReady 1; Bg] in
+  let ops := pre ++ [Tick 2; Issue 0 H1; Poll 2; Issue 0 H1; Poll 3] in
+  map o_events (skipn 17 (trace cfg ops))
+    = [[]; []; [EHand 2 1 false true true 0; EPend 2]; [EDrop 0]; [EDial 3 ("http", "a.test")%string; EPend 3]]
+  /\ map (fun o => map sn_idle (o_snap o)) (firstn 3 (skipn 16 (trace cfg ops))) = [[[0; 1]]; [[0; 1]]; [[0]]].
 Proof. vm_compute. auto. Qed.
 
 (* the monitor is not trivially true: on the model before the repair of D15 the following history was
